@@ -32,6 +32,7 @@ type c06Job struct {
 }
 type c06Viol struct {
 	Case   c06Case        `json:"case"`
+	Prev   *c06Case       `json:"prev,omitempty"`
 	Class  string         `json:"class"`
 	Detail string         `json:"detail"`
 	Out    plan.Outcome   `json:"outcome"`
@@ -53,6 +54,20 @@ type c06Result struct {
 	ViolCount  int            `json:"violation_count"`
 	Samples    []c06Case      `json:"samples,omitempty"`
 	SampleOut  []string       `json:"sample_outcomes,omitempty"`
+	Verdicts   []c06Verdict   `json:"verdicts,omitempty"`
+}
+
+type c06Verdict struct {
+	Class  string         `json:"class,omitempty"`
+	Detail string         `json:"detail,omitempty"`
+	Out    plan.Outcome   `json:"outcome"`
+	Log    []plan.ReadRec `json:"reads"`
+}
+
+// c06Plan is a replayable C06 plan: the cases run in this order in one fresh
+// process; the verdict is that of the LAST case (earlier ones only set the stage).
+type c06Plan struct {
+	Cases []c06Case `json:"cases"`
 }
 
 func addMap(dst, src map[string]int) {
@@ -70,85 +85,125 @@ func c06Key(v *c06Viol) string {
 	return fmt.Sprintf("%s/n=%d/lang=%d/script=%s", v.Class, v.Case.N, v.Case.Lang, plan.Digest(v.Case.Dev))
 }
 
-func (g *c06Engine) runCase(c c06Case) (*c06Viol, Proc, error) {
+// runCases executes the cases in one fresh process and returns the verdict on the last one.
+func (g *c06Engine) runCases(cs []c06Case) (*c06Viol, error) {
 	var res c06Result
-	p, err := g.e.RunJSON(g.bin, "c06", c06Job{Kind: "explicit", Cases: []c06Case{c}}, &res, 60*time.Second)
+	p, err := g.e.RunJSON(g.bin, "c06", c06Job{Kind: "explicit", Cases: cs}, &res, 60*time.Second)
 	if err != nil {
-		return nil, p, err
+		return nil, err
 	}
 	if p.Exit != 0 || p.TimedOut {
-		return nil, p, Troublef("worker exit %d timeout=%v: %s", p.Exit, p.TimedOut, tail(p.Stderr, 5))
+		return nil, Troublef("worker exit %d timeout=%v: %s", p.Exit, p.TimedOut, tail(p.Stderr, 5))
 	}
-	if len(res.Viol) > 0 {
-		return &res.Viol[0], p, nil
+	if len(res.Verdicts) != len(cs) {
+		return nil, Troublef("worker returned %d verdicts for %d cases", len(res.Verdicts), len(cs))
 	}
-	return nil, p, nil
+	last := res.Verdicts[len(cs)-1]
+	if last.Class == "" {
+		return nil, nil
+	}
+	v := &c06Viol{Case: cs[len(cs)-1], Class: last.Class, Detail: last.Detail, Out: last.Out, Log: last.Log}
+	if len(cs) > 1 {
+		v.Prev = &cs[len(cs)-2]
+	}
+	return v, nil
 }
 
-func toCase(pl interface{}) (c06Case, error) {
-	var c c06Case
+func toC06Plan(pl interface{}) (*c06Plan, error) {
+	var c c06Plan
 	b, err := json.Marshal(pl)
 	if err != nil {
-		return c, err
+		return nil, err
 	}
 	err = json.Unmarshal(b, &c)
-	return c, err
+	if err == nil && len(c.Cases) == 0 {
+		err = Troublef("C06 plan without cases")
+	}
+	return &c, err
 }
 
 func (g *c06Engine) Reproduce(pl interface{}) (*Violation, error) {
-	c, err := toCase(pl)
+	c, err := toC06Plan(pl)
 	if err != nil {
 		return nil, err
 	}
-	v, _, err := g.runCase(c)
+	v, err := g.runCases(c.Cases)
 	if err != nil || v == nil {
 		return nil, err
 	}
-	return c06Violation(v), nil
+	return c06PlanViolation(c.Cases, v), nil
 }
 
+func c06PlanViolation(cs []c06Case, v *c06Viol) *Violation {
+	stage := ""
+	if len(cs) > 1 {
+		stage = fmt.Sprintf(" (after %d earlier call(s) in the same process, the last one %s)", len(cs)-1, mustJSON(cs[len(cs)-2]))
+	}
+	return &Violation{Property: "C06", Class: v.Class, Key: c06Key(v), Engine: "srcsim-c06", Plan: c06Plan{Cases: cs},
+		Detail: fmt.Sprintf("NewMnemonic(%d, lang %d)%s: %s; outcome %s err=%s; device reads %s", v.Case.N, v.Case.Lang, stage, v.Detail, v.Out.Out, v.Out.Err, mustJSON(v.Log))}
+}
+
+// c06Violation turns a worker-reported violation into a plan: the case alone,
+// preceded by the case that ran before it (history may matter).
 func c06Violation(v *c06Viol) *Violation {
-	return &Violation{Property: "C06", Class: v.Class, Key: c06Key(v), Engine: "srcsim-c06", Plan: v.Case,
-		Detail: fmt.Sprintf("NewMnemonic(%d, lang %d): %s; outcome %s err=%s; device reads %s", v.Case.N, v.Case.Lang, v.Detail, v.Out.Out, v.Out.Err, mustJSON(v.Log))}
+	cs := []c06Case{v.Case}
+	if v.Prev != nil {
+		cs = []c06Case{*v.Prev, v.Case}
+	}
+	return c06PlanViolation(cs, v)
 }
 
 func mustJSON(v interface{}) string { b, _ := json.Marshal(v); return string(b) }
 
 func (g *c06Engine) Minimise(v *Violation) *Violation {
-	c, err := toCase(v.Plan)
+	pl, err := toC06Plan(v.Plan)
 	if err != nil {
 		return v
 	}
-	best := c
-	keep := DDMin(len(c.Dev.Script), func(k []int) bool {
-		t := c
-		t.Dev.Script = nil
-		for _, i := range k {
-			t.Dev.Script = append(t.Dev.Script, c.Dev.Script[i])
-		}
-		got, _, err := g.runCase(t)
+	cs := pl.Cases
+	same := func(t []c06Case) bool {
+		got, err := g.runCases(t)
 		return err == nil && got != nil && got.Class == v.Class
-	}, 300, 60*time.Second)
-	if len(keep) < len(c.Dev.Script) {
-		best.Dev.Script = nil
-		for _, i := range keep {
-			best.Dev.Script = append(best.Dev.Script, c.Dev.Script[i])
+	}
+	// does the last case fail on its own?
+	if len(cs) > 1 && same(cs[len(cs)-1:]) {
+		cs = cs[len(cs)-1:]
+	}
+	shrink := func(idx int) {
+		c := cs[idx]
+		keep := DDMin(len(c.Dev.Script), func(k []int) bool {
+			t := append([]c06Case(nil), cs...)
+			t[idx].Dev.Script = nil
+			for _, i := range k {
+				t[idx].Dev.Script = append(t[idx].Dev.Script, c.Dev.Script[i])
+			}
+			return same(t)
+		}, 150, 30*time.Second)
+		if len(keep) < len(c.Dev.Script) {
+			n := append([]c06Case(nil), cs...)
+			n[idx].Dev.Script = nil
+			for _, i := range keep {
+				n[idx].Dev.Script = append(n[idx].Dev.Script, c.Dev.Script[i])
+			}
+			cs = n
+		}
+		for _, fill := range []string{"counter", "zero"} { // prefer the simplest stream that still fails
+			t := append([]c06Case(nil), cs...)
+			t[idx].Dev.Hex, t[idx].Dev.Fill, t[idx].Dev.Seed = "", fill, 0
+			if same(t) {
+				cs = t
+				break
+			}
 		}
 	}
-	// prefer the simplest stream that still fails
-	for _, fill := range []string{"counter", "zero"} {
-		t := best
-		t.Dev.Hex, t.Dev.Fill, t.Dev.Seed = "", fill, 0
-		if got, _, err := g.runCase(t); err == nil && got != nil && got.Class == v.Class {
-			best = t
-			break
-		}
+	for i := len(cs) - 1; i >= 0; i-- {
+		shrink(i)
 	}
-	got, _, err := g.runCase(best)
-	if err != nil || got == nil {
+	got, err := g.runCases(cs)
+	if err != nil || got == nil || got.Class != v.Class {
 		return v
 	}
-	return c06Violation(got)
+	return c06PlanViolation(cs, got)
 }
 
 // CheckC06 - fail-closed and exact use of delivered bytes (fault enumeration).
